@@ -288,6 +288,7 @@ def case_worker(items):
     for i, (label, d, _) in enumerate(items):
         res["n"] += 1
         tie_only = label.startswith("quirk:")
+        pristine = copy.deepcopy(d)  # the replay must carry the input as it was BEFORE the code ran
         fails, out1 = ([], None) if tie_only else oracle(d)
         if tie_only:
             out1, _e = real_roundtrip(d)
@@ -300,7 +301,7 @@ def case_worker(items):
             else:
                 res["nviol"] += 1
                 if len(res["viol"]) < 5:
-                    res["viol"].append({"what": fails[0]["what"], "label": label, "failures": fails[:4], "input": d})
+                    res["viol"].append({"what": fails[0]["what"], "label": label, "failures": fails[:4], "input": pristine})
         if model is None:
             continue
         # B: codec self-test and model vs real output
@@ -310,6 +311,7 @@ def case_worker(items):
             k = (cz.get("unsupported") or cz.get("__error__") or "?")[:60]
             res["model_err"][k] = res["model_err"].get(k, 0) + 1
             continue
+        d = pristine
         if not G.strict_eq(cz.get("ok"), ui_reduce(d)):
             if len(res["codec_bad"]) < 3:
                 res["codec_bad"].append({"label": label, "paths": [p for p, *_ in G.diff_paths(ui_reduce(d), cz.get("ok"))][:5], "input": d if len(json.dumps(d)) < 3000 else None})
